@@ -9,7 +9,7 @@
     src/Table.c   Table_Get/Set/Mem/Rem/Resize/Assign, Table_Ideal_Size             (contents + nslots)
     src/Tree.c    Tree_Get/Set/Mem/Rem/Resize/Assign
     src/String.c  String_Mem/Rem/Resize/Concat/Assign/Format_To                      (heap, stack and static strings)
-    src/Iter.c    Range_Len/Get, Slice_Arg/slice_stack/Slice_Get, Zip_Get
+    src/Iter.c    Range_Len/Get (fix 81e7452: bounds test against the length first), Slice_Arg/slice_stack/Slice_Get, Zip_Get
     src/Type.c    cast, Type_Of (NULL), Type_Method_At_Offset (ClassError)
     src/Alloc.c   dealloc (ResourceError)
     src/Show.c    print_to_with (FormatError; partial output)
@@ -19,7 +19,9 @@
   validation depends on (allocation class, `nslots`).  Every operation returns `(state', result)`, the state also
   on failure: C12 is about what the state is when the exception leaves.  The order of checks and mutations is the
   order of the C statements.  Index arithmetic is written out on `BitVec 64` with the `int64_t`/`size_t`
-  conversions of the C expression `i = i < 0 ? nitems + i : i`.
+  conversions of the C expression `i = i < 0 ? nitems + i : i`.  `Range_Len` / `Range_Get` work on `int64_t` throughout:
+  every signed operation of theirs is written out with an explicit overflow test (`isI64`, outcome `ub`), so that the
+  absence of overflow is something the theorems prove, not something the model assumes.
 
   Core Lean only (the driver links against this file).
 -/
@@ -800,17 +802,16 @@ def Str.mem (s : Str) (v : Val) : Str × Res :=
   | .nullstr => (s, .ub)
   | _ => (s, .ok (.bool false))
 
-/-- `String_Rem`: absent → ValueError (fix 62eac2a); works in place (no heap check); an object without `C_Str`
-    is silently ignored (finding) -/
+/-- `String_Rem` (fix e60e6ec): `c_str(obj)` first — an argument without `C_Str` raises ClassError through the method lookup,
+    NULL raises ValueError — then `strstr`; absent → ValueError (fix 62eac2a); `memmove` in place (no heap check) -/
 def Str.rem (s : Str) (v : Val) : Str × Res :=
-  match v with
-  | .null => (s, .raised .ValueError)
-  | .str t =>
+  match cStr v with
+  | .ok t =>
     match removeFirst t s.s with
     | some r => ({ s with s := r }, .ok .unit)
     | none => (s, .raised .ValueError)
-  | .nullstr => (s, .ub)
-  | _ => (s, .ok .unit)
+  | .raised e => (s, .raised e)
+  | .ub => (s, .ub)
 
 def Str.resize (s : Str) (n : Nat) : Str × Res :=
   if s.alloc.nonHeap then (s, .raised .ValueError)
@@ -912,37 +913,52 @@ deriving DecidableEq, Repr, Inhabited
 
 def isI64 (x : Int) : Bool := decide (-(2 ^ 63 : Int) ≤ x) && decide (x < (2 ^ 63 : Int))
 
-/-- `Range_Len` -/
+/-- `Range_Len` (the value computed when no signed operation overflows, see `Rng.lenOk`) -/
 def Rng.len (r : Rng) : Nat :=
   if r.step = 0 then 0
   else if r.stop ≤ r.start then 0
   else if r.step > 0 then (((r.stop - 1) - r.start) / r.step + 1).toNat
   else (((r.stop - 1) - r.start) / (-r.step) + 1).toNat
 
-/-- `Range_Get`: signed overflow in `start + step * i` is undefined behaviour (`ub`) -/
+/-- `Range_Len` evaluates without signed overflow: `r->stop-1`, `(r->stop-1) - r->start`, `-r->step` and the final `+ 1` all stay
+    inside `int64_t` (the operands of `/` are then non-negative / positive: C's truncating division is the mathematical one).
+    False only for ranges wider than 2^63 - 1 or with step `INT64_MIN`. -/
+def Rng.lenOk (r : Rng) : Bool :=
+  if r.step = 0 then true
+  else if r.stop ≤ r.start then true
+  else if r.step > 0 then
+    isI64 (r.stop - 1) && isI64 ((r.stop - 1) - r.start) && isI64 (((r.stop - 1) - r.start) / r.step + 1)
+  else
+    isI64 (r.stop - 1) && isI64 ((r.stop - 1) - r.start) && isI64 (-r.step) && isI64 (((r.stop - 1) - r.start) / (-r.step) + 1)
+
+/-- `Range_Get` (fix 81e7452):
+    `int64_t n = Range_Len(r); int64_t i = c_int(key); i = i < 0 ? n+i : i;`
+    `if (step > 0 and i >= 0 and i < n) { x->val = start + step*i; return x; }`
+    `if (step < 0 and i >= 0 and i < n) { x->val = stop-1 + step*i; return x; }`
+    `throw(IndexOutOfBoundsError)`.
+    The element is computed only inside the bounds test; every signed operation (`n+i`, `step*i`, `start + …`, `stop-1`,
+    `stop-1 + …`) carries its overflow test: an overflow would be undefined behaviour (`ub`). -/
 def Rng.get (r : Rng) (k : Val) : Rng × Res :=
-  match cInt k with
-  | .ok kb =>
-    let i : Int := (if kb.slt 0 then BitVec.ofNat 64 r.len + kb else kb).toInt
-    if r.step = 0 then ({ r with scratch := 0 }, .ok (.val (.int 0)))
-    else if r.step > 0 then
-      if i ≥ 0 then
+  if !r.lenOk then (r, .ub)                                  -- signed overflow inside Range_Len
+  else
+    let n : Int := r.len
+    match cInt k with
+    | .ok kb =>
+      let k : Int := kb.toInt
+      let i : Int := if k < 0 then n + k else k
+      if !isI64 i then (r, .ub)                              -- `n + i`
+      else if r.step > 0 && decide (i ≥ 0) && decide (i < n) then
         if !isI64 (r.step * i) then (r, .ub)
         else if !isI64 (r.start + r.step * i) then (r, .ub)
-        else if r.start + r.step * i < r.stop then
-          ({ r with scratch := r.start + r.step * i }, .ok (.val (.int (r.start + r.step * i))))
-        else (r, .raised .IndexOutOfBoundsError)
-      else (r, .raised .IndexOutOfBoundsError)
-    else
-      if i ≥ 0 then
-        if !isI64 (r.step * i) then (r, .ub)
+        else ({ r with scratch := r.start + r.step * i }, .ok (.val (.int (r.start + r.step * i))))
+      else if r.step < 0 && decide (i ≥ 0) && decide (i < n) then
+        if !isI64 (r.stop - 1) then (r, .ub)
+        else if !isI64 (r.step * i) then (r, .ub)
         else if !isI64 (r.stop - 1 + r.step * i) then (r, .ub)
-        else if r.stop - 1 + r.step * i ≥ r.start then
-          ({ r with scratch := r.stop - 1 + r.step * i }, .ok (.val (.int (r.stop - 1 + r.step * i))))
-        else (r, .raised .IndexOutOfBoundsError)
+        else ({ r with scratch := r.stop - 1 + r.step * i }, .ok (.val (.int (r.stop - 1 + r.step * i))))
       else (r, .raised .IndexOutOfBoundsError)
-  | .raised e => (r, .raised e)
-  | .ub => (r, .ub)
+    | .raised e => (r, .raised e)
+    | .ub => (r, .ub)
 
 /-- `Range_Mem` (values of the histories are small: no overflow) -/
 def Rng.mem (r : Rng) (v : Val) : Rng × Res :=
@@ -960,7 +976,7 @@ def Rng.mem (r : Rng) (v : Val) : Rng × Res :=
 def Rng.step' (r : Rng) : Op → Rng × Res
   | .get k => r.get k
   | .mem v => r.mem v
-  | .len => (r, .ok (.nat r.len))
+  | .len => if r.lenOk then (r, .ok (.nat r.len)) else (r, .ub)
   | .set _ _ => (r, .raised .ClassError)      -- `Get` implemented, `set` NULL
   | .rem _ => (r, .raised .ClassError)
   | .assign .null => (r, .raised .ValueError) -- cast(NULL, Range)
@@ -1076,7 +1092,7 @@ def viewStep (σ : Store) (o : Obj) (op : Op) : Obj × Res :=
     | (r', .ok _) => (.slc { s with rng := r' }, .ub)
     | (r', .raised e) => (.slc { s with rng := r' }, .raised e)
     | (r', .ub) => (.slc { s with rng := r' }, .ub)
-  | .slc s, .len => (o, .ok (.nat s.rng.len))
+  | .slc s, .len => if s.rng.lenOk then (o, .ok (.nat s.rng.len)) else (o, .ub)
   | .zip z, .get k =>
     -- Zip_Get: values[i] = get(iters[i], key) in order
     match baseGet (σ.get? z.a) k with
